@@ -25,7 +25,15 @@ inductive DtdFields
   /-- one wildcard list `content` that accepts character data and any element, `choices` = the
   names the declaration lists -/
   | mixedWildcard (choices : List Str)
+  /-- the extension of `xs:anyType`: one optional wildcard field (`None | object`, namespace `##any`),
+  neither a list nor mixed -/
+  | anyTypeWildcard
 deriving DecidableEq, Repr
+
+/-- can the fields keep character data interleaved with child elements (a `mixed` wildcard list) -/
+def DtdFields.keepsMixedContent : DtdFields → Bool
+  | .mixedWildcard _ => true
+  | _ => false
 
 def isPcdata : Option DtdContent → Bool
   | some (.pcdata _) => true
@@ -48,7 +56,7 @@ def dtdClassFields (t : DtdElemType) (content : Option DtdContent) : DtdFields :
   | .mixed, some c =>
     let (mixed, c') := buildMixedContent c
     if mixed then .mixedWildcard ((occurs (dtdSites c')).map (·.name)) else .plain (occurs (dtdSites c'))
-  | .any, _ => .mixedWildcard []
+  | .any, _ => .anyTypeWildcard
   | _, _ => .plain []
 
 end Xs.Gen
